@@ -36,7 +36,10 @@ def _states(N, kind):
     return out
 
 
-def induct_task(cls_name, ctype, cone, W, N, prop, tier, base_only=False):
+def induct_task(cls_name, ctype, cone, W, N, prop, tier, base_only=False, rounds=1):
+    """rounds = 1: one step from every invariant-satisfying state (induction).  base_only: only the
+    initial state, `rounds` consecutive rounds with fresh symbolic regions per round and fixed
+    truths — every failure here is a reachable history and is realised + replayed."""
     W = np.asarray(W, dtype=float)
     K, m = W.shape
     alpha = _alpha_for(W)
@@ -46,36 +49,19 @@ def induct_task(cls_name, ctype, cone, W, N, prop, tier, base_only=False):
     kind = "paveba" if cls_name in A.PAVEBA else "pess"
     Wq = Wz(W)
     nslack = m if rtype == "hyperrectangle" else K
-    ex = Explorer(f"{prop}:{'base' if base_only else 'step'}:{cls_name}[{rtype[5:9]},{cone},N={N}]",
-                  query_timeout_ms=60000, max_paths=400000)
+    ex = Explorer(f"{prop}:{'base' if base_only else 'step'}:{cls_name}[{rtype[5:9]},{cone},N={N}"
+                  f"{',rounds=' + str(rounds) if rounds > 1 else ''}]", query_timeout_ms=60000, max_paths=400000)
     ex.stop_after_candidates = 3
     state = {}
     one_tau = sym.rv(1 + TAU)
 
     def body(ctx):
-        S, P, U, D = state["pre"]
+        S, P, U, D = (set(x) for x in state["pre"])
         eps = ctx.real("eps")
         ctx.assume(eps > 0)
         a = A.build(cls_name, N, m, W, alpha, eps, ctype)
-        regs = A.sym_regions(ctx, a, N, m, rtype)
         mu = ctx.reals("mu", N, m)
         muz = zs(mu)
-        # hypothesis: the truth of every design in S ∪ P lies in the region displayed for it
-        sup = None
-        if rtype != "hyperrectangle":
-            # ellipsoids of ANY shape enter through their support intervals along the facet normals:
-            # [lo_in, hi_in] = w_n·c_i ∓ α_i‖Σ_i^{1/2} w_n‖, hi > lo (non-empty interior).  DOM (per-facet slack) is
-            # exactly  ∀n lo_jn − hi_in ≥ −s_n  for any convex region, and μ_i ∈ R_i gives lo_in ≤ w_n·μ_i ≤ hi_in.
-            sup = [[(ctx.fresh(f"suplo{i}_{n}"), ctx.fresh(f"suphi{i}_{n}")) for n in range(K)] for i in range(N)]
-            for i in range(N):
-                for n in range(K):
-                    ctx.assume(sup[i][n][0] < sup[i][n][1])
-        for i in S | P:
-            if rtype == "hyperrectangle":
-                ctx.assume([regs[i].lower <= mu[i], mu[i] <= regs[i].upper])
-            else:
-                for n in range(K):
-                    ctx.assume(z3.And(sup[i][n][0] <= dotz(Wq[n], muz[i]), dotz(Wq[n], muz[i]) <= sup[i][n][1]))
         diff = lambda j, i: [muz[j][k] - muz[i][k] for k in range(m)]  # noqa  μ_j − μ_i
         dom_t = lambda j, i: zand([dotz(r, diff(j, i)) >= 0 for r in Wq])  # noqa  μ_j ≽ μ_i
         if kind == "paveba":
@@ -94,69 +80,103 @@ def induct_task(cls_name, ctype, cone, W, N, prop, tier, base_only=False):
             K2 = lambda P_: zand([z3.Not(strictly(q, p)) for p in P_ for q in P_ if q != p])  # noqa
             K3 = lambda S_, P_: zand([z3.Not(strictly(s, p)) for p in P_ for s in S_])  # noqa
             ctx.assume([K1(S, P), K2(P), K3(S, P)])
-        T = A.Tables(ctx, regs, m, K, rtype)
-        active = S | (U if kind == "paveba" else P)
-
-        def hook(kindp, i, j, key, val):
-            """summary contract (C09/C10): the predicate's ∀∀ / ¬∃∃ statement instantiated at the truths,
-            plus the region-level closed form of DOM (excludes mutual domination of non-degenerate regions)"""
-            v = T.var(kindp, i, j, key)
-            terms = trans._key_terms(cls_name, a, alpha, eps, nslack, key)
-            if terms is None:
-                return
-            both = i in (S | P) and j in (S | P)
-            if kindp == "DOM":
-                if rtype == "hyperrectangle":
-                    d = A.rect_dom_def(W, regs[i], regs[j], terms)
-                else:
-                    d = zand([sup[j][n][0] - sup[i][n][1] >= -terms[n] for n in range(K)])
-                ctx.fact(v == d)
-                if val and both:
-                    if rtype == "hyperrectangle":
-                        ctx.fact(zand([dotz(r, [muz[j][k] + terms[k] - muz[i][k] for k in range(m)]) >= 0 for r in Wq]))
-                    else:
-                        ctx.fact(zand([dotz(Wq[n], diff(j, i)) >= -terms[n] for n in range(K)]))
-            elif kindp == "COV" and not val and both:
-                if rtype == "hyperrectangle":
-                    ctx.fact(zor([dotz(r, [muz[j][k] - muz[i][k] - terms[k] for k in range(m)]) < 0 for r in Wq]))
-                else:
-                    ctx.fact(zor([dotz(Wq[n], diff(j, i)) < terms[n] for n in range(K)]))
-        T.hooks.append(hook)
         a.S, a.P = set(S), set(P)
         if kind == "paveba":
             a.U = set(U)
-        with patched((mod, {**T.patches(), "np": NpProxy()})):
-            trans._phases(cls_name, a)
-        S2, P2 = set(a.S), set(a.P)
-        U2 = set(a.U) if kind == "paveba" else set()
-        D2 = D | {i for i in S if i not in S2 and i not in P2}
-        ctx.witness(f"|S'|={len(S2)},|P'|={len(P2)}")
-        if kind == "paveba":
-            claims = {"J1: every eliminated design is dominated by a kept one": J1(S2, P2, D2),
-                      "J2: every member of P has gap ≤ ε": J2(P2),
-                      "J3: a dropped Pareto design cannot ε-exceed a remaining candidate": J3(S2, P2, U2)}
-            if not S2:
-                claims["S=∅: P is ε-accurate (consequent of C01)"] = z3.And(
-                    zand([zor([dom_t(q, d) for q in P2]) for d in range(N) if d not in P2]), J2(P2))
-        else:
-            claims = {"K1: every ε-isolated optimum is still in S ∪ P": K1(S2, P2),
-                      "K2: no member of P is ε-dominated by another member": K2(P2),
-                      "K3: no candidate ε-dominates a member of P": K3(S2, P2)}
-            if not S2:
-                claims["S=∅: consequent of C05"] = z3.And(
-                    zand([z3.Implies(isolated(x), z3.BoolVal(x in P2)) for x in range(N)]), K2(P2))
-        strong = {}
-        if kind == "paveba":   # a violation with a visible margin (5 %) for the replay
-            strong["J2: every member of P has gap ≤ ε"] = zor(
-                [zand([dotz(Wq[n], diff(j, p)) >= epsa[n] * sym.rv(Fraction(21, 20)) for n in range(K)])
-                 for p in P2 for j in range(N) if j != p])
-        for name, cl in claims.items():
-            mdl = ctx.prove(name, cl)
-            if mdl is not None:
-                _candidate(ex, ctx, name, z3.Not(strong[name]) if name in strong else cl, T, regs, mu, cls_name, ctype, cone,
-                           W, alpha, eps, a, N, state, prop, rtype, nslack, base_only)
-                return
-        ctx.sample({"cls": cls_name, "pre": [sorted(S), sorted(P), sorted(U), sorted(D)], "post": [sorted(S2), sorted(P2)]})
+        hist = []   # (tables, regions) per round, for the realisation
+        for rnd in range(rounds):
+            if not a.S:
+                break
+            S, P = set(a.S), set(a.P)
+            U = set(a.U) if kind == "paveba" else set()
+            regs = A.sym_regions(ctx, a, N, m, rtype, tag=f"r{rnd}_")
+            # hypothesis: the truth of every design in S ∪ P lies in the region displayed for it
+            sup = None
+            if rtype != "hyperrectangle":
+                # ellipsoids of ANY shape enter through their support intervals along the facet normals:
+                # [lo_in, hi_in] = w_n·c_i ∓ α_i‖Σ_i^{1/2} w_n‖, hi > lo (non-empty interior).  DOM (per-facet slack) is
+                # exactly  ∀n lo_jn − hi_in ≥ −s_n  for any convex region, and μ_i ∈ R_i gives lo_in ≤ w_n·μ_i ≤ hi_in.
+                sup = [[(ctx.fresh(f"suplo{i}_{n}"), ctx.fresh(f"suphi{i}_{n}")) for n in range(K)] for i in range(N)]
+                for i in range(N):
+                    for n in range(K):
+                        ctx.assume(sup[i][n][0] < sup[i][n][1])
+            for i in S | P:
+                if rtype == "hyperrectangle":
+                    ctx.assume([regs[i].lower <= mu[i], mu[i] <= regs[i].upper])
+                else:
+                    for n in range(K):
+                        ctx.assume(z3.And(sup[i][n][0] <= dotz(Wq[n], muz[i]), dotz(Wq[n], muz[i]) <= sup[i][n][1]))
+            T = A.Tables(ctx, regs, m, K, rtype)
+            if rounds > 1:
+                base_var = T.var
+                T.var = (lambda bv, tag: (lambda kind_, i, j, key=(): bv(kind_, i, j, key + (tag,))))(base_var, f"@{rnd}")
+            hist.append((T, regs))
+            SP = S | P
+
+            def hook(kindp, i, j, key, val, T=T, regs=regs, sup=sup, SP=SP):
+                """summary contract (C09/C10): the predicate's ∀∀ / ¬∃∃ statement instantiated at the truths,
+                plus the region-level closed form of DOM (excludes mutual domination of non-degenerate regions)"""
+                v = T.var(kindp, i, j, key)
+                terms = trans._key_terms(cls_name, a, alpha, eps, nslack, tuple(k for k in key if not k.startswith("@")))
+                if terms is None:
+                    return
+                both = i in SP and j in SP
+                if kindp == "DOM":
+                    if rtype == "hyperrectangle":
+                        d = A.rect_dom_def(W, regs[i], regs[j], terms)
+                    else:
+                        d = zand([sup[j][n][0] - sup[i][n][1] >= -terms[n] for n in range(K)])
+                    ctx.fact(v == d)
+                    if val and both:
+                        if rtype == "hyperrectangle":
+                            ctx.fact(zand([dotz(r, [muz[j][k] + terms[k] - muz[i][k] for k in range(m)]) >= 0 for r in Wq]))
+                        else:
+                            ctx.fact(zand([dotz(Wq[n], diff(j, i)) >= -terms[n] for n in range(K)]))
+                elif kindp == "COV" and not val and both:
+                    if rtype == "hyperrectangle":
+                        ctx.fact(zor([dotz(r, [muz[j][k] - muz[i][k] - terms[k] for k in range(m)]) < 0 for r in Wq]))
+                    else:
+                        ctx.fact(zor([dotz(Wq[n], diff(j, i)) < terms[n] for n in range(K)]))
+            T.hooks.append(hook)
+            with patched((mod, {**T.patches(), "np": NpProxy()})):
+                trans._phases(cls_name, a)
+            S2, P2 = set(a.S), set(a.P)
+            U2 = set(a.U) if kind == "paveba" else set()
+            D = D | {i for i in S if i not in S2 and i not in P2}
+            D2 = D
+            if kind == "paveba":
+                claims = {"J1: every eliminated design is dominated by a kept one": J1(S2, P2, D2),
+                          "J2: every member of P has gap ≤ ε": J2(P2),
+                          "J3: a dropped Pareto design cannot ε-exceed a remaining candidate": J3(S2, P2, U2)}
+                if not S2:
+                    claims["S=∅: P is ε-accurate (consequent of C01)"] = z3.And(
+                        zand([zor([dom_t(q, d) for q in P2]) for d in range(N) if d not in P2]), J2(P2))
+            else:
+                claims = {"K1: every ε-isolated optimum is still in S ∪ P": K1(S2, P2),
+                          "K2: no member of P is ε-dominated by another member": K2(P2),
+                          "K3: no candidate ε-dominates a member of P": K3(S2, P2)}
+                if not S2:
+                    claims["S=∅: consequent of C05"] = z3.And(
+                        zand([z3.Implies(isolated(x), z3.BoolVal(x in P2)) for x in range(N)]), K2(P2))
+            strong = {}
+            if kind == "paveba":   # a violation with a visible margin (5 %) for the replay
+                strong["J2: every member of P has gap ≤ ε"] = zor(
+                    [zand([dotz(Wq[n], diff(j, p)) >= epsa[n] * sym.rv(Fraction(21, 20)) for n in range(K)])
+                     for p in P2 for j in range(N) if j != p])
+            else:
+                s105 = [x * sym.rv(Fraction(21, 20)) for x in sv]
+                strong["K2: no member of P is ε-dominated by another member"] = zor(
+                    [zand([dotz(r, [muz[q][k] - muz[p][k] - s105[k] for k in range(m)]) >= 0 for r in Wq])
+                     for p in P2 for q in P2 if q != p])
+            for name, cl in claims.items():
+                mdl = ctx.prove(name, cl)
+                if mdl is not None:
+                    initial = len(state["pre"][0]) == N
+                    _candidate(ex, ctx, name, z3.Not(strong[name]) if name in strong else cl, hist, mu, cls_name, ctype, cone,
+                               W, alpha, eps, a, N, state, prop, rtype, nslack, base_only or initial)
+                    return
+        ctx.witness(f"|S'|={len(a.S)},|P'|={len(a.P)}")
+        ctx.sample({"cls": cls_name, "pre": [sorted(x) for x in state["pre"]], "post": [sorted(a.S), sorted(a.P)], "rounds": len(hist)})
 
     sts = _states(N, kind)
     if base_only:
@@ -168,12 +188,12 @@ def induct_task(cls_name, ctype, cone, W, N, prop, tier, base_only=False):
     if any(v.get("reproduced") for v in ex.violations):
         ex.violations = [v for v in ex.violations if v.get("reproduced")]
     r = ex.result()
-    r["config"] = {"cls": cls_name, "region": rtype, "cone": cone, "N": N, "pre_states": len(sts),
+    r["config"] = {"cls": cls_name, "region": rtype, "cone": cone, "N": N, "pre_states": len(sts), "rounds": rounds,
                    "max_Walpha_over_alpha": float(np.max((W @ aflat) / aflat)) if K == m else None}
     return r
 
 
-def _candidate(ex, ctx, name, claim, T, regs, mu, cls_name, ctype, cone, W, alpha, eps, a, N, state, prop, rtype, nslack,
+def _candidate(ex, ctx, name, claim, hist, mu, cls_name, ctype, cone, W, alpha, eps, a, N, state, prop, rtype, nslack,
                base_only):
     """a failed step: concrete regions + truths realising it (exact, robust definitions of every
     decided table entry).  Only failures from the initial state are reachable histories by
@@ -185,8 +205,9 @@ def _candidate(ex, ctx, name, claim, T, regs, mu, cls_name, ctype, cone, W, alph
         return
     def build_defs():
         defs = []
-        for (kind, i, j, key), v in list(T.vars.items()):
-            s = trans._key_terms(cls_name, a, alpha, eps, nslack, key)
+        for T, regs in hist:
+          for (kind, i, j, key), v in list(T.vars.items()):
+            s = trans._key_terms(cls_name, a, alpha, eps, nslack, tuple(k for k in key if not k.startswith("@")))
             if s is None or kind == "PD":
                 if kind == "PD" and rtype == "hyperrectangle":
                     defs.append(z3.Implies(v, A.rect_pd_def(ctx, W, regs[i], regs[j], True)))
@@ -208,18 +229,18 @@ def _candidate(ex, ctx, name, claim, T, regs, mu, cls_name, ctype, cone, W, alph
                              z3.Implies(z3.Not(v), A.sphere_cov_def(ctx, W, regs[i], regs[j], s, False))]
         return defs
     bounds = [eps.e >= Fraction(1, 16), eps.e <= 2]
-    for r in regs:
-        if rtype == "hyperrectangle":
-            for lo, up in zip(zs(r.lower), zs(r.upper)):
-                bounds += [lo >= -8, up <= 8, up - lo >= Fraction(1, 8)]
-        else:
-            bounds += [c >= -8 for c in zs(r.center)] + [c <= 8 for c in zs(r.center)] + \
-                      [sym.to_z3(r.alpha) >= Fraction(1, 8), sym.to_z3(r.alpha) <= 4]
-    if rtype != "hyperrectangle":
-        muz_ = zs(mu)
-        for i, r in enumerate(regs):
-            d_ = [muz_[i][k] - zs(r.center)[k] for k in range(m)]
-            bounds.append(sum((x * x for x in d_), sym.rv(0)) <= sym.to_z3(r.alpha) * sym.to_z3(r.alpha))
+    muz_ = zs(mu)
+    for T_, regs_ in hist:
+        for i, r in enumerate(regs_):
+            if rtype == "hyperrectangle":
+                for lo, up in zip(zs(r.lower), zs(r.upper)):
+                    bounds += [lo >= -8, up <= 8, up - lo >= Fraction(1, 8)]
+            else:
+                bounds += [c >= -8 for c in zs(r.center)] + [c <= 8 for c in zs(r.center)] + \
+                          [sym.to_z3(r.alpha) >= Fraction(1, 8), sym.to_z3(r.alpha) <= 4]
+                # truths inside the realised spheres (all designs: harmless for inactive ones)
+                d_ = [muz_[i][k] - zs(r.center)[k] for k in range(m)]
+                bounds.append(sum((x * x for x in d_), sym.rv(0)) <= sym.to_z3(r.alpha) * sym.to_z3(r.alpha))
     mdl = None
     for linear in (True, False):   # linear sufficient certificates first (LRA), then Farkas certificates
         A.LINEAR = linear
@@ -239,15 +260,18 @@ def _candidate(ex, ctx, name, claim, T, regs, mu, cls_name, ctype, cone, W, alph
         ex.inconclusive.append(f"failed step '{name}' from the initial state could not be realised with robust margins")
         return
     mv = lambda e: model_value(mdl, e)  # noqa
-    if rtype == "hyperrectangle":
-        rj = [{"lower": frac_json([mv(e) for e in zs(r.lower)]), "upper": frac_json([mv(e) for e in zs(r.upper)])} for r in regs]
-    else:
-        rj = [{"center": frac_json([mv(e) for e in zs(r.center)]), "alpha": frac_json(mv(sym.to_z3(r.alpha)))} for r in regs]
-    S, P, U, D = state["pre"]
+    rounds_json = []
+    for T_, regs_ in hist:
+        if rtype == "hyperrectangle":
+            rounds_json.append([{"lower": frac_json([mv(e) for e in zs(r.lower)]), "upper": frac_json([mv(e) for e in zs(r.upper)])}
+                                for r in regs_])
+        else:
+            rounds_json.append([{"center": frac_json([mv(e) for e in zs(r.center)]), "alpha": frac_json(mv(sym.to_z3(r.alpha)))}
+                                for r in regs_])
     aflat = np.asarray(alpha, dtype=float).flatten()
     ex.candidate(name, {"kind": "induct", "prop": prop, "cls": cls_name, "ctype": ctype, "cone": cone, "W": W.tolist(), "N": N,
-                        "eps": frac_json(mv(eps.e)), "regions": rj, "mu": frac_json([[mv(e) for e in row] for row in zs(mu)]),
-                        "claim": name},
+                        "eps": frac_json(mv(eps.e)), "rounds": rounds_json,
+                        "mu": frac_json([[mv(e) for e in row] for row in zs(mu)]), "claim": name},
                  {"cls": cls_name, "region": rtype, "cone": cone, "claim": name[:2],
                   "max_Walpha_over_alpha": float(np.max((W @ aflat) / aflat)) if K == m else None})
 
@@ -267,23 +291,27 @@ def replay(case):
     a = A.build(cls_name, N, m, W, alpha, eps, ctype)
     rtype = A.region_type(cls_name, ctype)
     F1 = lambda v: np.array([float(Fraction(x)) for x in from_frac_json(v)])  # noqa
-    regs = []
     mu = np.array([[float(Fraction(x)) for x in row] for row in from_frac_json(case["mu"])])
-    for i, r in enumerate(case["regions"]):
-        if rtype == "hyperrectangle":
-            R = cr.RectangularConfidenceRegion(m, F1(r["lower"]), F1(r["upper"]))
-            inside = np.all(R.lower - 1e-12 <= mu[i]) and np.all(mu[i] <= R.upper + 1e-12)
-        else:
-            R = cr.EllipsoidalConfidenceRegion(m, F1(r["center"]), np.eye(m), float(Fraction(from_frac_json(r["alpha"]))))
-            inside = np.linalg.norm(mu[i] - R.center) <= R.alpha + 1e-12
-        if not inside:
-            return {"reproduced": False, "detail": "model's truth not inside its region after float conversion"}
-        regs.append(R)
-    a.design_space.confidence_regions = regs
-    try:
-        trans._phases(cls_name, a)
-    except Exception as ex:  # noqa
-        return {"reproduced": False, "detail": "real phases raised " + repr(ex) + " (C06)"}
+    for rnd, rjs in enumerate(case["rounds"]):
+        if not a.S:
+            break
+        active = set(a.S) | set(a.P)
+        regs = []
+        for i, r in enumerate(rjs):
+            if rtype == "hyperrectangle":
+                R = cr.RectangularConfidenceRegion(m, F1(r["lower"]), F1(r["upper"]))
+                inside = np.all(R.lower - 1e-12 <= mu[i]) and np.all(mu[i] <= R.upper + 1e-12)
+            else:
+                R = cr.EllipsoidalConfidenceRegion(m, F1(r["center"]), np.eye(m), float(Fraction(from_frac_json(r["alpha"]))))
+                inside = np.linalg.norm(mu[i] - R.center) <= R.alpha + 1e-12
+            if i in active and not inside:
+                return {"reproduced": False, "detail": "model's truth not inside its region after float conversion"}
+            regs.append(R)
+        a.design_space.confidence_regions = regs
+        try:
+            trans._phases(cls_name, a)
+        except Exception as ex:  # noqa
+            return {"reproduced": False, "detail": "real phases raised " + repr(ex) + " (C06)"}
     P2 = set(a.P)
     if case["prop"] == "C01":
         gaps = {}
@@ -295,7 +323,7 @@ def replay(case):
             gaps[p] = g
         bad = {p: g for p, g in gaps.items() if g > eps * (1 + 1e-3)}
         return {"reproduced": bool(bad), "gap_over_eps": max([g / eps for g in gaps.values()], default=0.0),
-                "detail": f"{cls_name}({rtype}, cone {case['cone']}), ε={eps}: after one round from the initial state with every "
+                "detail": f"{cls_name}({rtype}, cone {case['cone']}), ε={eps}: after {len(case['rounds'])} round(s) from the initial state with every "
                           f"truth inside its region, P={sorted(P2)} (members never leave P) has gaps {gaps} > ε"}
     # C05: K2 / K1 on the post-state
     u = np.asarray(a.u_star, dtype=float) * eps if cls_name != "EpsilonPAL" else np.ones(m) * eps
